@@ -921,6 +921,67 @@ func (p *Prog) bindIndexLoop(f *Func, s ast.Stmt, st *pstate) {
 	}
 }
 
+// assertionHelper: call is a statement-level call of a hand-written function without results that has both returning
+// and panicking paths. Its success facts, over the actual arguments, are added to the state; the result is true when one
+// of them is already refuted (the helper panics on this path).
+func (p *Prog) assertionHelper(f *Func, call *ast.CallExpr, st *pstate) bool {
+	fo, _ := typeutil.Callee(f.Pkg.TypesInfo, call).(*types.Func)
+	if fo == nil {
+		return false
+	}
+	g := p.FuncByObj[fo]
+	if g == nil || g == f || g.Body == nil || !g.isHandWritten() || len(g.Res) != 0 || p.pathsBusy[g] || len(g.Params) == 0 || len(g.Params) > 3 {
+		return false
+	}
+	var ce *Event
+	for i := len(st.events) - 1; i >= 0; i-- {
+		if e := st.events[i]; e.Kind == EvCall && e.Node == ast.Node(call) {
+			ce = e
+			break
+		}
+	}
+	if ce == nil || ce.CI == nil || ce.CI.fn != g {
+		return false
+	}
+	hasOK, hasPanic := false, false
+	for _, pg := range p.PathsOf(g) {
+		switch {
+		case pg.Exit == ExitPanic:
+			hasPanic = true
+		case pg.OK():
+			hasOK = true
+		}
+	}
+	if !hasOK || !hasPanic {
+		return false
+	}
+	m := map[string]*Term{}
+	for i, a := range ce.CI.args {
+		m[fmt.Sprintf("P%d", i)] = a
+	}
+	for _, sf := range p.SummaryOf(g).SuccessFacts {
+		for _, nf := range sf.SubstAll(m) {
+			// "the error is nil" about the error result of a call: that call succeeded
+			if nf.T.Op == "==" && len(nf.T.A) == 2 && nf.T.A[1].IsAt("#nil") {
+				if src := errSource(nf.T.A[0]); src != nil {
+					nf = Fact{T: mk("ok", src), Neg: nf.Neg}
+				}
+			}
+			if isConstTerm(nf.T) {
+				continue
+			}
+			switch decideFact(nf, st.facts) {
+			case 0:
+				return true
+			case 1:
+			default:
+				st.addFact(nf, nil)
+			}
+		}
+	}
+	return false
+}
+
 // execNode executes one CFG node; returns true if the path ended.
 func (p *Prog) execNode(f *Func, n ast.Node, st *pstate, out *[]*Path) bool {
 	info := f.Pkg.TypesInfo
@@ -937,6 +998,15 @@ func (p *Prog) execNode(f *Func, n ast.Node, st *pstate, out *[]*Path) bool {
 			return true
 		}
 		st.ev.eval(s.X)
+		// a statement that calls an assertion helper (no results; returns or panics): what every returning path of the
+		// helper has established holds from here on, and a path on which that is already refuted ends in the helper's panic
+		if call, ok := ast.Unparen(s.X).(*ast.CallExpr); ok {
+			if dead := p.assertionHelper(f, call, st); dead {
+				st.emit(&Event{Kind: EvPanic, Node: s, Pos: s.Pos()})
+				*out = append(*out, &Path{Fn: f, Events: st.events, Exit: ExitPanic, RetPos: s.Pos()})
+				return true
+			}
+		}
 	case *ast.AssignStmt:
 		p.execAssign(f, s, st)
 	case *ast.IncDecStmt:
